@@ -5,7 +5,7 @@ D=$(mktemp -d /tmp/pyvc-seed-XXXXXX)
 git -C /repo worktree add -q --detach "$D/repo" HEAD || exit 3
 cd "$D/repo"
 PYTHONPATH="$D/repo" /venv/bin/python "$DIR/demo.py" > "$D/demo0.out" 2>&1; d0=$?
-git apply "$DIR/patch.diff" || { echo "PATCH-FAIL"; cd /; git -C /repo worktree remove --force "$D/repo"; rm -rf "$D"; exit 3; }
+( git apply "$DIR/patch.diff" 2>/dev/null || git apply --3way "$DIR/patch.diff" ) || { echo "PATCH-FAIL"; cd /; git -C /repo worktree remove --force "$D/repo"; rm -rf "$D"; exit 3; }
 PYTHONPATH="$D/repo" /venv/bin/python -m pytest -q -p no:cacheprovider -x > "$D/suite.out" 2>&1; s=$?
 PYTHONPATH="$D/repo" /venv/bin/python "$DIR/demo.py" > "$D/demo1.out" 2>&1; d1=$?
 echo "$DIR pristine_demo=$d0 suite_exit=$s ($(tail -1 $D/suite.out)) patched_demo=$d1"
